@@ -26,7 +26,7 @@ def run_checks(props, tier, name, env):
     results = {}
     for p in props:
         t0 = time.time()
-        rc, out = sh('%s./check %s %s' % (env, p, tier), cwd=ROOT, timeout=7200)
+        rc, out = sh('VERIF_EVIDENCE_DIR=/tmp/seed_evidence %s./check %s %s' % (env, p, tier), cwd=ROOT, timeout=7200)
         viol = [l for l in out.splitlines() if l.startswith('VIOLATION')]
         msgs = [l.strip() for l in out.splitlines() if l.startswith('  ')][:3]
         results[p] = dict(exit=rc, violations=len(viol), wall_s=round(time.time() - t0, 1), first_messages=[x[:400] for x in msgs], tier=tier)
